@@ -215,7 +215,7 @@ pub fn c07(ctx: &mut Ctx, tier: &str, r: &mut Rng, js: &[Value], reqs: &[String]
     // watchdog: the work runs on a thread that reports each case before starting it
     let mut cases = cases_from(js, reqs);
     if !replay_only {
-        let reps = if tier == "thorough" { 60 } else { 3 };
+        let reps = sz!(tier, 3, 60);
         for _ in 0..reps {
             for (m, _) in METHODS {
                 for pol in 0..15usize {
@@ -380,7 +380,7 @@ pub fn c08(ctx: &mut Ctx, tier: &str, r: &mut Rng, js: &[Value], reqs: &[String]
         ctx.finish(json!({}));
         return;
     }
-    let n = if tier == "thorough" { 400 } else { 14 };
+    let n = sz!(tier, 14, 400);
     for rep in 0..n {
         for (mi, (m, _)) in METHODS.iter().enumerate().skip(1) {
             for pol in 1..15usize {
@@ -521,7 +521,7 @@ pub fn c11(ctx: &mut Ctx, tier: &str, r: &mut Rng, js: &[Value], reqs: &[String]
         return;
     }
     // every second of the day at mid-second, 6 prayers x 3 rounding modes (exhaustive in the thorough tier)
-    let stride = if tier == "thorough" { 1 } else { 11 };
+    let stride = sz!(tier, 11, 1);
     for pr in PRAYERS.iter().skip(1) {
         for mode in ROUNDS.iter().skip(1) {
             let mut k = 0;
@@ -540,7 +540,7 @@ pub fn c11(ctx: &mut Ctx, tier: &str, r: &mut Rng, js: &[Value], reqs: &[String]
     }
     ctx.exhaustive = stride == 1;
     // through the public API, sliding each prayer across midnight and across the hour with its offset
-    let n = if tier == "thorough" { 6000 } else { 400 };
+    let n = sz!(tier, 400, 6000);
     for i in 0..n {
         let mut p = Params::new(r.pick(&METHODS).0);
         p.extreme_latitude_method = policy(r.pick(&[0usize, 6, 6, 1, 7]), 48.5);
